@@ -211,9 +211,17 @@ inductive StepR (sh : Shared) (th : Thread) : Out → Prop
       (hsh : DShape sh th f fs o) :
       StepR sh th { o with new := [{ pc := .astart, job := some ⟨r, f.ty, f.v, f.ctx, t, n⟩ }] }
   | lock (r : Reg) (a : Bool) (f : Frame) (fs : List Frame) (hpc : th.pc = .lock r a) (hfr : th.frames = f :: fs)
-      (hfree : r.rid ∉ sh.held) :
+      (hfree : r.rid ∉ sh.held) (hl : sh.live f.ctx = true) :
       StepR sh th ⟨{ sh.noteEnter r with held := r.rid :: sh.held },
         { th with frames := { f with handler := some r, body := r.body } :: fs, pc := .enter r }, [], [.enter r.rid f.ty f.v a]⟩
+  | lockDeadJob (r : Reg) (a : Bool) (j : Job) (f : Frame) (hpc : th.pc = .lock r a) (hj : th.job = some j) (hfr : th.frames = [f])
+      (hfree : r.rid ∉ sh.held) (hl : sh.live f.ctx = false) :
+      StepR sh th
+        ⟨{ sh with serving := if j.reg.seq then setKV sh.serving j.reg.rid (lookupD sh.serving j.reg.rid + 1) else sh.serving },
+         { th with frames := [], pc := .aend }, [], []⟩
+  | lockDeadSync (r : Reg) (a : Bool) (f : Frame) (fs : List Frame) (o : Out) (hpc : th.pc = .lock r a) (hfr : th.frames = f :: fs)
+      (hj : th.job = none ∨ fs ≠ []) (hfree : r.rid ∉ sh.held) (hl : sh.live f.ctx = false)
+      (hsh : DShape sh th f fs o) : StepR sh th o
   | enterPub (r : Reg) (f : Frame) (fs : List Frame) (ty v : Nat) (more : List (Nat × Nat))
       (hpc : th.pc = .enter r) (hfr : th.frames = f :: fs) (hb : f.body = (ty, v) :: more) :
       StepR sh th ⟨sh, { th with frames := newFrame sh ty v .bg :: { f with body := more } :: fs, pc := .snap }, [], []⟩
@@ -313,8 +321,24 @@ theorem stepR_of_step {sh : Shared} {th : Thread} {o : Out} (h : step sh th = so
   · -- lock
     rename_i r a hpc
     split at h
-    · rename_i f fs hfr; cases h
-      exact .lock r a f fs hpc hfr (by simpa [enabled, hpc] using hen)
+    · rename_i f fs hfr
+      have hfree : r.rid ∉ sh.held := by simpa [enabled, hpc] using hen
+      split at h
+      · rename_i hl
+        have hl' : sh.live f.ctx = false := by simpa using hl
+        split at h
+        · rename_i j hj; cases h
+          have := StepR.lockDeadJob (sh := sh) r a j f hpc hj hfr hfree hl'
+          by_cases hjs : j.reg.seq = true
+          · simpa [hjs] using this
+          · cases sh; simpa [hjs] using this
+        · rename_i hne; cases h
+          refine .lockDeadSync r a f _ _ hpc hfr ?_ hfree hl' (dispatch_shape _ _ _ _ _ f rfl)
+          cases hj : th.job with
+          | none => exact .inl rfl
+          | some j => exact .inr (fun h => hne j hj h)
+      · rename_i hl; cases h
+        exact .lock r a f fs hpc hfr hfree (by simpa using hl)
     · cases h
   · -- enter
     rename_i r hpc
@@ -468,6 +492,7 @@ theorem StepR.regStep {sh th o} (h : StepR sh th o) : RegStep sh o.sh := by
   case filterRej hsh => exact hsh.regStep
   case claimed hsh => exact hsh.regStep
   case spawn hsh => exact hsh.regStep
+  case lockDeadSync hsh => exact hsh.regStep
   case exit hsh => cases hsh.regStep with | same h1 h2 h3 => exact .same h1 h2 h3 | add r h1 hr h2 h3 => exact .add r h1 hr h2 h3 | del h1 h2 h3 => exact .del h1 h2 h3
   all_goals exact .same (by simp) (by simp) (by simp)
 
@@ -578,6 +603,9 @@ theorem StepR.frames {sh th o} (h : StepR sh th o) (hreg : ∀ r ∈ sh.regs, r.
   case spawn r n t f fs o hpc hfr hsh =>
     rw [hfr] at hth
     exact ⟨(hsh.weak.frames (hth _ (by simp)) (fun g hg => hth g (by simp [hg]))).1, by simp⟩
+  case lockDeadSync r a f fs hpc hfr hj hfree hl hsh =>
+    rw [hfr] at hth
+    exact ⟨(hsh.weak.frames (hth _ (by simp)) (fun g hg => hth g (by simp [hg]))).1, by simp [hsh.new_nil]⟩
   case exit r f fs hpc hfr hj hsh =>
     rw [hfr] at hth
     refine ⟨(hsh.weak.frames (n := sh.nextRid) (upd f _ (hth _ (by simp)) rfl rfl rfl) (fun g hg => hth g (by simp [hg]))).1,
@@ -641,6 +669,12 @@ def ThOK (th : Thread) : Prop :=
   | .aend => th.job.isSome ∧ th.frames = []
   | .done => True
 
+theorem ThOK.lock {th : Thread} (hth : ThOK th) {r : Reg} {a : Bool} {f : Frame} {fs : List Frame}
+    (hpc : th.pc = .lock r a) (hfr : th.frames = f :: fs) : r.seq = true ∧ f.handler = none := by
+  cases a <;> simp only [ThOK, hpc, hfr] at hth
+  · obtain ⟨hs, ⟨f', fs', h1', h2⟩, _⟩ := hth; cases h1'; exact ⟨hs, h2⟩
+  · obtain ⟨hs, ⟨f', fs', h1', h2⟩, _⟩ := hth; cases h1'; exact ⟨hs, h2⟩
+
 theorem Shape.thOK {sh th f fs PF PC PG o} (h : Shape sh th f fs PF PC PG o) (hf : f.handler = none)
     (hlen : th.job.isSome → fs ≠ []) : ThOK o.th := by
   have h2 : th.job.isSome → 2 ≤ (f :: fs).length := by
@@ -681,6 +715,12 @@ theorem StepR.thOK {sh th o} (h : StepR sh th o) (hth : ThOK th) : ThOK o.th ∧
     exact ⟨hsh.thOK h2 (fun hj => len2 _ _ (h3 hj)), by simp [ThOK]⟩
   case exit r f fs hpc hfr hj hsh =>
     refine ⟨hsh.thOK rfl ?_, by simp [hsh.new_nil]⟩
+    intro hj'
+    rcases hj with hj | hj
+    · simp [hj] at hj'
+    · exact hj
+  case lockDeadSync r a f fs hpc hfr hj hfree hl hsh =>
+    refine ⟨hsh.thOK (hth.lock hpc hfr).2 ?_, by simp [hsh.new_nil]⟩
     intro hj'
     rcases hj with hj | hj
     · simp [hj] at hj'
@@ -796,6 +836,9 @@ theorem StepR.infl {sh th o} (h : StepR sh th o) (hth : ThOK th) (hle : wInfl th
   case exit r f fs hpc hfr hj hsh =>
     obtain ⟨h1, h2, h3⟩ := hsh.infl
     simp [wInfl, hsh.new_nil, h1, h2, h3, hpc, isSpawn]; omega
+  case lockDeadSync r a f fs hpc hfr hj hfree hl hsh =>
+    obtain ⟨h1, h2, h3⟩ := hsh.infl
+    simp [wInfl, hsh.new_nil, h1, h2, h3, hpc, isSpawn]; omega
   case aend hpc =>
     simp [ThOK, hpc] at hth
     simp [wInfl, hpc, isSpawn, hth] at hle ⊢
@@ -901,7 +944,11 @@ theorem StepR.once {sh th o} (h : StepR sh th o) (rid : Nat) :
     have hc : carry rid th = onceBit r0 rid := by simp [carry, hpc]
     have hg : ∀ j : Job, carry rid { pc := .astart, job := some j } = onceBit j.reg rid := fun j => rfl
     rw [hc]; simp only [wsum_cons, wsum_nil, hg]; omega
-  case lock r a f fs hpc hfr hfree =>
+  case lockDeadSync r0 a f fs hpc hfr hj hfree hl hsh =>
+    have := hsh.once rid 0 (fun r l h => by simp [onceBit, h.2])
+    have hc : carry rid th = onceBit r0 rid := by simp [carry, hpc]
+    simp only [hsh.new_nil, wsum_nil, hc]; omega
+  case lock r a f fs hpc hfr hfree hl =>
     have hc : carry rid th = onceBit r rid := by simp [carry, hpc]
     rw [hc]; simp only [wsum_nil, carry, exBit, noteEnter_enteredOnce, noteEnter_executed]
     unfold onceBit
@@ -1013,11 +1060,15 @@ theorem StepR.inside {sh th o} (h : StepR sh th o) (rid : Nat) (hth : ThOK th)
       · have hr' : rid ≠ r.rid := fun h => hr h.symm
         simp [hs, hr, List.count_erase_of_ne hr', h1]
     · simp [hs, h1]
-  case lock r a f fs hpc hfr hfree =>
-    have hseq : r.seq = true ∧ f.handler = none := by
-      cases a <;> simp only [ThOK, hpc, hfr] at hth
-      · obtain ⟨hs, ⟨f', fs', h1', h2⟩, _⟩ := hth; cases h1'; exact ⟨hs, h2⟩
-      · obtain ⟨hs, ⟨f', fs', h1', h2⟩, _⟩ := hth; cases h1'; exact ⟨hs, h2⟩
+  case lockDeadJob r a j f hpc hj hfr hfree hl =>
+    have hf := (hth.lock hpc hfr).2
+    simp [inside_eq, hfr, insideF, hf, h1]
+  case lockDeadSync r a f fs hpc hfr hj hfree hl hsh =>
+    have hf := (hth.lock hpc hfr).2
+    obtain ⟨e1, e2⟩ := hsh.inside rid hf
+    simp [hsh.new_nil, e1, e2, inside_eq, hfr, insideF_none hf, h1]
+  case lock r a f fs hpc hfr hfree hl =>
+    have hseq : r.seq = true ∧ f.handler = none := hth.lock hpc hfr
     simp only [inside_eq, hfr, List.countP_cons, insideF, hseq.1, hseq.2, wsum_nil]
     by_cases hr : r.rid = rid
     · subst hr
@@ -1227,7 +1278,20 @@ theorem StepR.tk {sh th o} (h : StepR sh th o) (hth : ThOK th) : TkEff sh th o :
     refine .quiet rfl rfl rfl rfl ?_ ?_
     · intro rid t; simp [hold, hpc]
     · intro rid; simp [prog, hth]
-  case lock r a f fs hpc hfr hfree =>
+  case lockDeadSync r a f fs hpc hfr hj hfree hl hsh =>
+    exact .of_shape hsh _ rfl rfl rfl rfl rfl rfl (by simp [idle, hpc]) (by simp [hsh.new_nil]) (by simp [hsh.new_nil, hold, hpc])
+  case lockDeadJob r a j f hpc hj hfr hfree hl =>
+    by_cases hs : j.reg.seq = true
+    · refine .release j hs rfl rfl (by simp [hs]) rfl rfl ?_ ?_ ?_ ?_
+      · intro rid t; simp [hold, hpc]
+      · intro rid t; simp [hold]
+      · intro rid; simp only [prog, hj, hpc, hs, idle, true_and]
+        by_cases h1 : rid = j.reg.rid <;> simp [h1, eq_comm]
+      · intro rid; simp [prog, hj, idle]
+    · refine .quiet rfl rfl (by simp [hs]) rfl ?_ ?_
+      · intro rid t; simp [hold, hpc]
+      · intro rid; simp [prog, hj, hs]
+  case lock r a f fs hpc hfr hfree hl =>
     refine .quiet (by simp) (by simp) (by simp) (by simp) ?_ ?_
     · intro rid t; simp [hold, hpc]
     · intro rid; simp [prog, idle, hpc]
